@@ -6,24 +6,25 @@ import Proofs.DasIds
 import Proofs.DasCanon
 /-!
   C08 — attributes survive the DAS.  Model: `PydapModel/DasText.lean` (follows parsers/das.py and
-  responses/das.py *after* the two fixes: `float()` under Float32/Float64; size-0 values skipped everywhere).
-  `PydapModel/DasForeign.lean` is the specification of a foreign-layout printer (not pydap code).
+  responses/das.py *after* the three fixes: `float()` under Float32/Float64; size-0 values skipped everywhere;
+  `add_attributes` attaches only containers).  `PydapModel/DasForeign.lean` is the specification of a foreign-layout
+  printer (not pydap code).
 
-  Proved for ALL inputs (unbounded; induction on characters, value lists, and mutual structural induction over
-  the nested `Item` / `FItem` / `Var` trees):
-    * whole text, on characters: `C08_parse_print` (pydap's own DAS of any dataset tree), `C08_foreign_parse`
-      (any tree of nodes in pydap's layout), `C08_foreign_layout` (any tree of nodes in a foreign layout:
-      keyword / type case, white space chosen per node, several attributes per line);
-    * whole dataset: `C08_placement_tree` (add_attributes over the whole parsed dict), `C08_roundtrip_partial`
-      (serve, parse, attach) with `C08_roundtrip_refuted` / `C08_roundtrip_collision_refuted` for the unguarded
-      statements, `C08_foreign` (foreign-layout text with nested containers, parsed and attached);
-    * value / attribute-line level and the single decisions of `add_attributes`
-      (`C08_value_roundtrip`, `C08_roundtrip_line_*`, `C08_foreign_line`, `C08_placement_flat/_nested/_keep/_none/_global`).
-    * flat style over a whole tree: `C08_foreign_flat` (parsed dict with containers keyed by dotted ids) and
-      `C08_foreign_flat_text` (from the foreign-layout text).  Its guard "ids pairwise distinct" is a hypothesis; that it
-      follows from distinct, dot-free sibling names is not proved here.
-  Example level only (kernel-evaluated `rfl` examples below + the differential run): texts mixing flat and nested
-  containers for the same subtree, the keep-around rule over a whole tree, white space before `,`/`;`, error outcomes.
+  Proved for ALL inputs (unbounded; induction on characters, value lists, and mutual structural induction over the
+  nested `Item` / `FItem` / `Var` trees):
+    * whole text, on characters: `C08_parse_print`, `C08_foreign_parse`, `C08_foreign_layout`;
+    * whole dataset: `C08_placement_tree`, `C08_roundtrip_partial` (+ `C08_roundtrip_refuted` /
+      `C08_roundtrip_collision_refuted` for the unguarded statements), `C08_das_text_spelling` + `C08_roundtrip_canon`
+      (short and empty lists included, modulo the normal form the DAS format forces), `C08_foreign`;
+    * flat style over a whole tree: `C08_foreign_flat`, `C08_foreign_flat_text`, and — the id guard discharged from
+      distinct dot-free sibling names — `C08_flat_ids_distinct`, `C08_foreign_flat_names`;
+    * `add_attributes` as an operation on the caller's dict: `C08_attach_total` (never raises), `C08_attach_consumes`,
+      `C08_memo_second_opening`, `C08_memo_refuted`, and the client over histories of openings: `C08_history_roundtrip`;
+    * value / attribute-line level and the single decisions of `add_attributes` (`C08_value_roundtrip`,
+      `C08_roundtrip_line_*`, `C08_foreign_line`, `C08_placement_flat/_nested/_both/_keep/_none/_global`).
+  Not ∀-theorems (see design_notes/C08.md for the precise reasons): whole-tree texts mixing flat and nested containers
+  for one subtree (the single visit is `C08_placement_both`), white space before `,`/`;` after a number token (its value
+  is Python's `literal_eval`), parser error outcomes.
 -/
 namespace Pydap.C08
 open Pydap.Das
